@@ -97,12 +97,14 @@ func HarnessC03ParserHoles() { c03ParserHoles(false) }
 func HarnessC20Diagnostics() { c03ParserHoles(true) }
 
 func c03ParserHoles(positions bool) {
-	t := c03Templates[verifrt.Choose(len(c03Templates))]
+	ti := verifrt.Choose(len(c03Templates))
+	t := c03Templates[ti]
 	pos := verifrt.Choose(len(t) + 1)
 	hole := 1
-	if verifrt.Thorough() && len(t) <= 12 {
-		// two adjacent symbolic bytes: only in the short templates (the path count
-		// grows with the square of the number of lexer byte classes)
+	if verifrt.Thorough() && (len(t) <= 12 || ti%8 == verifrt.Seed()%8) {
+		// two adjacent symbolic bytes: in the short templates and in one eighth of
+		// the others, rotating with VERIF_SEED (the path count grows with the
+		// square of the number of lexer byte classes)
 		hole = 1 + verifrt.Choose(2)
 	}
 	sym := verifrt.String(hole)
